@@ -18,6 +18,7 @@ type S struct {
 	t *T
 
 	emptyFindReported bool
+	cellTestsBroken   bool // ContainsCellID/IntersectsCellID seen wrong on a leaf: Difference may not terminate
 }
 
 // T rations the correspondence cases per category.
@@ -313,8 +314,32 @@ func (s *S) pair1(xraw, yraw []uint64, class string, fullProbes bool) {
 			c.Violate("CellUnion.Intersection", "CellUnionFromIntersection result is not normalized", r)
 		}
 	}
-	// difference, both orders
-	for o := 0; o < 2; o++ {
+	// difference, both orders.  cellUnionDifferenceInternal recurses into the children of a cell
+	// that "intersects but is not contained"; if ContainsCellID and IntersectsCellID ever disagree
+	// on a LEAF the recursion never ends (fatal stack overflow, not recoverable).  So the leaf
+	// cells at the boundaries of all cells involved are probed first, and Difference is not
+	// called any more once these two tests have been seen to be wrong.
+	for o := 0; o < 2 && !s.cellTestsBroken; o++ {
+		a, b, sb := x, y, sy
+		if o == 1 {
+			a, b, sb = y, x, sx
+		}
+		ub := toCU(b)
+		for _, cell := range append(append([]uint64{}, a...), b...) {
+			for _, l := range []uint64{oLeafMin(cell), oLeafMax(cell), oLeafMin(cell) - 2, oLeafMax(cell) + 2} {
+				if !oValid(l) {
+					continue
+				}
+				in := sb.hasPos(l >> 1)
+				if ub.ContainsCellID(s2.CellID(l)) != in || ub.IntersectsCellID(s2.CellID(l)) != in {
+					s.cellTestsBroken = true
+					c.Violate("CellUnion.ContainsCellID", fmt.Sprintf("ContainsCellID/IntersectsCellID of a leaf cell disagree with membership (%v)", in),
+						map[string]interface{}{"x": hexs(b), "id": fmt.Sprintf("0x%016x", l)})
+				}
+			}
+		}
+	}
+	for o := 0; o < 2 && !s.cellTestsBroken; o++ {
 		a, b, want, r := x, y, sD, rep
 		if o == 1 {
 			a, b, want = y, x, sD2
@@ -399,7 +424,9 @@ func (s *S) tPair(a, b []uint64) {
 	if p, _ := try(func() { got = fromCU(s2.CellUnionFromIntersection(toCU(a), toCU(b))) }); !p {
 		s.t.check(lbl("FromIntersection", a, b), eqL(vkit.App("cu_FromIntersection", A, B), zl(got)))
 	}
-	if p, _ := try(func() { got = fromCU(s2.CellUnionFromDifference(toCU(a), toCU(b))) }); !p && len(got) <= 400 {
+	if s.cellTestsBroken {
+		// skip: see pair1
+	} else if p, _ := try(func() { got = fromCU(s2.CellUnionFromDifference(toCU(a), toCU(b))) }); !p && len(got) <= 400 {
 		s.t.check(lbl("FromDifference", a, b), eqL(vkit.App("cu_FromDifference", A, B), zl(got)))
 	}
 	ua, ub := toCU(a), toCU(b)
